@@ -1,6 +1,7 @@
 import Np.Proofs.Walk
 import Np.Proofs.Index
 import Np.Model.Compare
+import Np.Proofs.Compare
 /-! C07 — comparison operators form one strict total order: property theorems -/
 namespace Np.Props.C07
 open Np.Ord
@@ -49,6 +50,40 @@ theorem walk_order_sorted (graded reverse : Bool) (expos : List (List Nat)) :
       (fun i j => Index.glexLe graded reverse (expos.getD i []) (expos.getD j []) = true) :=
   Index.glexsort_sorted graded reverse expos
 end model
+
+section executable
+open Np.Index
+variable {K : Type} [LinearOrder K] [BEq K] [LawfulBEq K] {graded reverse : Bool} {expos : List (List Nat)} {z : K}
+
+/-- the selected monomial order is a strict total order on exponent rows (every `sort_graded`/`sort_reverse`) -/
+theorem monomial_order_strict_total (a b c : List Nat) :
+    glexLt graded reverse a a = false ∧
+    (glexLt graded reverse a b = true → glexLt graded reverse b c = true → glexLt graded reverse a c = true) ∧
+    (a ≠ b → glexLt graded reverse a b = true ∨ glexLt graded reverse b a = true) :=
+  ⟨glexLt_irrefl graded reverse a, glexLt_trans graded reverse a b c, glexLt_total graded reverse a b⟩
+
+/-- the executable walk of `greater` (rows visited in `glexsort` order, initial verdict from storage row 0) is true
+exactly when, at the largest monomial where the two aligned operands differ, the first has the larger coefficient -/
+theorem greater_decides (hnd : expos.Nodup) (h0 : 0 < expos.length) (c1 c2 : List K) :
+    cmpWalk (glexsort graded reverse expos) (decide (c2.getD 0 z < c1.getD 0 z)) (fun x y => decide (y < x)) z c1 c2 = true ↔
+      ∃ i < expos.length, c2.getD i z < c1.getD i z ∧
+        ∀ j < expos.length, glexLt graded reverse (expos.getD i []) (expos.getD j []) = true →
+          c1.getD j z = c2.getD j z := greater_walk_decides graded reverse expos z hnd h0 c1 c2
+
+/-- all four order operators as `compareArr` runs them decide their specification (`<` mirrored, `<=`/`>=` the
+complements) -/
+theorem compare_decides (hnd : expos.Nodup) (h0 : 0 < expos.length) (op : CmpOp) (c1 c2 : List K) :
+    cmpWalk (glexsort graded reverse expos) (op.rel (fun x y => decide (x < y)) (c1.getD 0 z) (c2.getD 0 z))
+        (op.rel (fun x y => decide (x < y))) z c1 c2 = true ↔ CmpSpec graded reverse expos z op c1 c2 :=
+  compare_walk_decides graded reverse expos z hnd h0 op c1 c2
+
+/-- exactly one of `a < b`, `a == b`, `a > b` on aligned columns -/
+theorem columns_trichotomy (hnd : expos.Nodup) (c1 c2 : List K) :
+    ColGt graded reverse expos z c2 c1 ∨ (∀ j < expos.length, c1.getD j z = c2.getD j z) ∨
+      ColGt graded reverse expos z c1 c2 := colGt_trichotomy graded reverse expos z hnd c1 c2
+theorem columns_asymm (hnd : expos.Nodup) (c1 c2 : List K) (h1 : ColGt graded reverse expos z c1 c2)
+    (h2 : ColGt graded reverse expos z c2 c1) : False := colGt_asymm graded reverse expos z hnd c1 c2 h1 h2
+end executable
 
 /-- non-vacuity: `-q0**2 > 4*q0` is false and `q0**2+3 > 4*q0` is true (rows: monomial rank, a, b) -/
 example : greaterWalk (decide ((0:Int) < 0)) [((0:Nat), (0:Int), (0:Int)), (1, 0, 4), (2, -1, 0)] = false ∧
